@@ -158,3 +158,101 @@ func VerifC21_cluster() {
 		verifReach("fallback")
 	}
 }
+
+// VerifC21_clusterMulti: placement of cluster batches (DoMulti: _pickMulti; DoMultiCache:
+// _pickMultiCache). Two slots with their own primary and replica; each command's predicate answer
+// is symbolic; the replica table has either form _refresh builds (all nodes with a
+// ReadNodeSelector, or the single pre-selected node).
+func VerifC21_clusterMulti() {
+	n := 2 + verifChoose(int(verifParam("max_batch", 3))-1)
+	b := cmds.NewBuilder(cmds.InitSlot)
+	cs := make([]Completed, n)
+	optIn := make([]bool, n)
+	for i := range cs {
+		tag := "{s}"
+		if verifChoose(2) == 1 {
+			tag = "{t}"
+		}
+		cs[i] = b.Get().Key(tag + string([]byte{'k', '0' + byte(i)})).Build().Pin()
+		optIn[i] = verifNondetBool()
+	}
+	ps, rs1 := &verifStubConn{addr: "ps"}, &verifStubConn{addr: "rs"}
+	pt, rt1 := &verifStubConn{addr: "pt"}, &verifStubConn{addr: "rt"}
+	opt := &ClientOption{}
+	hasPred := verifChoose(2) == 1
+	if hasPred {
+		opt.SendToReplicas = verifPredicate(cs, optIn)
+	}
+	sel := 0
+	withSelector := verifChoose(2) == 1
+	if withSelector {
+		sel = verifNondetInt(-2, 3)
+		opt.ReadNodeSelector = func(uint16, []NodeInfo) int { return sel }
+	}
+	c := &clusterClient{cmd: b, opt: opt, conns: map[string]connrole{"ps": {conn: ps}, "rs": {conn: rs1}, "pt": {conn: pt}, "rt": {conn: rt1}},
+		retryHandler: newRetryer(defaultRetryDelayFn), stopCh: make(chan struct{})}
+	ks, kt := b.Get().Key("{s}").Build(), b.Get().Key("{t}").Build()
+	slotS, slotT := ks.Slot(), kt.Slot()
+	c.wslots[slotS], c.wslots[slotT] = ps, pt
+	hasTable := verifChoose(2) == 1
+	if hasTable {
+		c.rslots = make([][]NodeInfo, 16384)
+		if withSelector {
+			c.rslots[slotS] = nodes{{Addr: "ps", conn: ps}, {Addr: "rs", conn: rs1}}
+			c.rslots[slotT] = nodes{{Addr: "pt", conn: pt}, {Addr: "rt", conn: rt1}}
+		} else {
+			c.rslots[slotS] = nodes{{Addr: "rs", conn: rs1}}
+			c.rslots[slotT] = nodes{{Addr: "rt", conn: rt1}}
+		}
+	}
+	// expected node of command i
+	want := func(i int) conn {
+		prim, repl := conn(ps), conn(rs1)
+		if cs[i].Slot() == slotT {
+			prim, repl = pt, rt1
+		}
+		if !hasPred || !hasTable || !optIn[i] {
+			return prim
+		}
+		if withSelector {
+			if sel == 1 {
+				return repl
+			}
+			return prim // index 0 is the primary; an answer outside the list falls back to it
+		}
+		return repl
+	}
+	placed := make([]int, n)
+	if verifChoose(2) == 0 {
+		retries, _ := c._pickMulti(cs)
+		verifAssert(retries != nil, "the batch is placed")
+		for cc, re := range retries.m {
+			verifAssert(len(re.commands) == len(re.cIndexes), "positions are recorded for every placed command")
+			for j, ci := range re.cIndexes {
+				placed[ci]++
+				verifAssert(re.commands[j].Commands()[1] == cs[ci].Commands()[1], "the recorded position belongs to the command")
+				verifAssert(cc == want(ci), "a batch command goes to a replica only when SendToReplicas opts that command in, otherwise to its slot's primary")
+			}
+		}
+		verifReach("multi")
+	} else {
+		multi := make([]CacheableTTL, n)
+		for i := range cs {
+			multi[i] = CT(Cacheable(cs[i]), 0)
+		}
+		retries := c._pickMultiCache(multi)
+		verifAssert(retries != nil, "the batch is placed")
+		for cc, re := range retries.m {
+			verifAssert(len(re.commands) == len(re.cIndexes), "positions are recorded for every placed command")
+			for j, ci := range re.cIndexes {
+				placed[ci]++
+				verifAssert(re.commands[j].Cmd.Commands()[1] == cs[ci].Commands()[1], "the recorded position belongs to the command")
+				verifAssert(cc == want(ci), "a cached batch command goes to a replica only when SendToReplicas opts that command in, otherwise to its slot's primary")
+			}
+		}
+		verifReach("multicache")
+	}
+	for i := range placed {
+		verifAssert(placed[i] == 1, "every command of the batch is placed exactly once")
+	}
+}
